@@ -971,7 +971,8 @@ fn run_adversarial(order: &str, n: usize, seed: u64, rep: &mut Report) {
                     x
                 };
                 let mut base = 0usize;
-                let mut combo = 0usize;
+                // (which size variant / construction order / argument order meets which k depends on the seed and on n)
+                let mut combo = (seed % 40) as usize + n % 7;
                 'outer: loop {
                     let mut progressed = false;
                     for k in 1..=20usize {
@@ -986,7 +987,7 @@ fn run_adversarial(order: &str, n: usize, seed: u64, rep: &mut Report) {
                         let build_p = combo / 2 % 2 == 0;
                         // a component of `size` elements at [lo, lo + size): perfect binomial blocks for the set bits of
                         // size (largest first), each built through roots, then joined through roots largest first
-                        let mut build = |dsu: &mut DSU, m: &mut BigModel, lo: usize, size: usize, cx: &mut Cx, ok: &mut bool, unions: &mut usize| {
+                        let build = |dsu: &mut DSU, m: &mut BigModel, lo: usize, size: usize, cx: &mut Cx, ok: &mut bool, unions: &mut usize| {
                             let mut at = lo;
                             let mut prev_root: Option<usize> = None;
                             for bit in (0..=20usize).rev() {
@@ -1485,6 +1486,10 @@ fn main() {
                 for n in [(1usize << 18) + 5, 600_000, 1_000_000, (1 << 20) + 7, 1_500_000] {
                     tasks.push((o.to_string(), n));
                 }
+            }
+            // (components of 2^16 .. 2^18 elements: whatever is kept per component in 16 bits saturates or wraps there)
+            for n in [600_000usize, 1_100_000, 1_500_000] {
+                tasks.push(("binomial_meets_slightly_smaller".to_string(), n));
             }
             let q = WorkQueue::new(tasks.len() as u64);
             let tasks = &tasks;
